@@ -194,6 +194,9 @@ def _inline(it):
         return r"\verb%s%s%s" % (d, s, d)
     if t == "fn":
         return r"\footnote{%s}" % tex_escape(it["leaf"]["s"])
+    if t == "fnc":
+        # a footnote whose text is the same wherever it occurs (no marker word): equal footnotes
+        return r"\footnote{Ibid.}"
     if t == "idx":
         if it.get("sort"):
             return r"\index{%s@%s}" % (it["sort"], index_escape(it["leaf"]["s"]))
@@ -684,6 +687,8 @@ def doc_strategy(leaf=None, title_leaf=None, max_units=8, max_blocks=3, classes=
             t = "w"
         if t in ("ref", "cite"):
             return {"t": t, "to": draw(st.integers(0, 30)), "leaf": draw(tag_leaf())}
+        if t == "fnc":
+            return {"t": "fnc"}
         if t == "idx" and sorted_index:
             return {"t": t, "leaf": draw(leaf()), "sort": True}
         if t == "idx" and mixed_index and draw(st.booleans()):
